@@ -160,6 +160,20 @@ func cmdCheck(args []string) {
 		}
 	}
 
+	basePath := filepath.Join(*root, "baseline", *prop+".json")
+	var base Baseline
+	skip := map[string]bool{}
+	if !*writeBaseline {
+		if err := readJSON(basePath, &base); err != nil {
+			fmt.Fprintln(os.Stderr, "baseline:", err)
+			os.Exit(2)
+		}
+		if *tier != "thorough" {
+			for _, k := range base.Unclaimed {
+				skip[k] = true
+			}
+		}
+	}
 	results := make([]*fnResult, len(jobs))
 	var wg sync.WaitGroup
 	sem := make(chan struct{}, 6)
@@ -170,7 +184,7 @@ func cmdCheck(args []string) {
 			defer wg.Done()
 			defer func() { <-sem }()
 			t1 := time.Now()
-			vc := P.verify(P.funcs[j.key], timeout, 4, filepath.Join(scratchDir, "vc-keep-"+*prop), false)
+			vc := P.verify(P.funcs[j.key], timeout, 4, filepath.Join(scratchDir, "vc-keep-"+*prop), false, skip)
 			results[i] = &fnResult{key: j.key, vc: vc, mode: j.mode, err: vc.err, wall: time.Since(t1)}
 		}(i, j)
 	}
@@ -209,7 +223,6 @@ func cmdCheck(args []string) {
 		}
 	}
 
-	basePath := filepath.Join(*root, "baseline", *prop+".json")
 	if *writeBaseline {
 		b := Baseline{Property: *prop}
 		st := map[string]string{}
@@ -241,6 +254,16 @@ func cmdCheck(args []string) {
 			fmt.Println("  unsupported:", u)
 		}
 		if *verbose {
+			sort.Slice(results, func(i, j int) bool { return results[i].wall > results[j].wall })
+			for i, r := range results {
+				if i < 30 {
+					n := 0
+					if r.vc != nil {
+						n = len(r.vc.obligs)
+					}
+					fmt.Printf("  time: %-70s %6.1fs %d obligations\n", r.key, r.wall.Seconds(), n)
+				}
+			}
 			for _, k := range b.Unclaimed {
 				fmt.Println("  unclaimed:", k)
 			}
@@ -248,11 +271,6 @@ func cmdCheck(args []string) {
 		return
 	}
 
-	var base Baseline
-	if err := readJSON(basePath, &base); err != nil {
-		fmt.Fprintln(os.Stderr, "baseline:", err)
-		os.Exit(2)
-	}
 	var known []KnownFinding
 	readJSON(filepath.Join(*root, "known_findings.json"), &known)
 
@@ -408,6 +426,7 @@ func cmdCheck(args []string) {
 		assumptions = append(assumptions, "contract copies under /repo differ from or are missing against /verif/contracts (mirror used): "+strings.Join(P.contractDiffs, ", "))
 	}
 	perFn := []any{}
+	var vacuous []string
 	for _, r := range results {
 		if r.err != nil {
 			perFn = append(perFn, map[string]any{"fn": r.key, "mode": r.mode, "unsupported": r.err.Error()})
@@ -423,7 +442,10 @@ func cmdCheck(args []string) {
 				d++
 			}
 		}
-		perFn = append(perFn, map[string]any{"fn": r.key, "mode": r.mode, "obligations": n, "discharged": d, "wall_ms": r.wall.Milliseconds(), "auto_invariants": r.vc.autoKept})
+		perFn = append(perFn, map[string]any{"fn": r.key, "mode": r.mode, "obligations": n, "discharged": d, "wall_ms": r.wall.Milliseconds(), "auto_invariants": r.vc.autoKept, "vacuity": r.vc.Vacuity})
+		if r.vc.Vacuity == "VACUOUS" {
+			vacuous = append(vacuous, r.key)
+		}
 	}
 	sort.Strings(unclaimedNow)
 	ev := map[string]any{
@@ -456,6 +478,10 @@ func cmdCheck(args []string) {
 		*prop, *tier, dischargedN+frameCount-len(frameFail), obligN+frameCount, len(jobs), len(unclaimedNow), len(knownHit), violations, time.Since(t0).Seconds())
 	if obligN == 0 {
 		fmt.Println("vacuity guard: no obligations were generated")
+		os.Exit(2)
+	}
+	if len(vacuous) > 0 {
+		fmt.Println("vacuity guard: assumptions are contradictory (no return reachable) in:", strings.Join(vacuous, ", "))
 		os.Exit(2)
 	}
 	if violations > 0 {
